@@ -191,6 +191,9 @@ func TestC05(t *testing.T) {
 		tr := wire.New(stream, io.EOF)
 		withDebug = rapid.Bool().Draw(t, "with_debug")
 		defer func() { withDebug = false }()
+		if rapid.IntRange(0, 2).Draw(t, "server_builds_its_options_once") > 0 {
+			defer reuseOptions()()
+		}
 		c, err := newConn(context.Background(), tr, echKeys(keys...))
 		if err == nil && rapid.Bool().Draw(t, "other_connection_accepted_meanwhile") {
 			// before the backend has read anything, the server accepts another connection
